@@ -4,6 +4,9 @@ import json, os
 R = os.path.dirname(os.path.dirname(os.path.abspath(__file__)))
 props = [json.loads(l) for l in open(os.path.join(R, "properties.jsonl"))]
 claims = json.load(open(os.path.join(R, "tools", "claims.json")))
+import glob
+for fn in sorted(glob.glob(os.path.join(R, "tools", "claims.d", "*.json"))):
+    claims.update(json.load(open(fn)))
 checks, na = [], []
 for p in props:
     c = claims.get(p["id"])
